@@ -59,6 +59,9 @@ pub struct FieldM {
     pub long: Option<String>,
     pub short_gen: bool,
     pub long_gen: bool,
+    /// explicit short name spelled as a string literal (`short = "x"`) instead of a char literal
+    #[serde(default)]
+    pub short_str: bool,
     pub default: Option<DefaultM>,
     pub value_name: Option<String>,
     pub doc: Option<DocM>,
@@ -234,10 +237,15 @@ impl Gen<'_> {
     }
 
     fn doc(&mut self, about: &str) -> Option<DocM> {
-        let style = match self.r.below(10) {
+        // 4: `#[allow(unused)]` between the first doc line and the rest, 5: the whole doc text after the item's own
+        // attribute, 6: the item's own attribute between the first doc line and the rest
+        let style = match self.r.below(14) {
             0 => 1,
             1 => 2,
             2 => 3,
+            3 => 4,
+            4 => 5,
+            5 => 6,
             _ => 0,
         };
         self.doc_plain(about).map(|mut d| {
@@ -411,7 +419,13 @@ impl Gen<'_> {
                 for _ in 0..nf {
                     let k = self.r.range(1, 2);
                     let ws = self.words(k);
-                    let fname = ws.join("_");
+                    // now and then an identifier outside ASCII (lower-case words joined by `_`, so kebab-case is still plain)
+                    let (fname, lname) = if self.r.chance(8) {
+                        let (a, b) = self.r.pick(&[("юникод", "юникод"), ("порт_данных", "порт-данных"), ("größe", "größe"), ("値", "値"), ("ñu_x", "ñu-x"), ("𠀀a", "𠀀a")]);
+                        (a.to_string(), b.to_string())
+                    } else {
+                        (ws.join("_"), ws.join("-"))
+                    };
                     if fnames.contains(&fname) {
                         continue;
                     }
@@ -425,6 +439,7 @@ impl Gen<'_> {
                         long: None,
                         short_gen: false,
                         long_gen: false,
+                        short_str: false,
                         default: None,
                         value_name: None,
                         doc: None,
@@ -466,7 +481,7 @@ impl Gen<'_> {
                         }
                         if c > 30 || s.is_none() {
                             if self.r.chance(70) {
-                                l = Some(ws.join("-"));
+                                l = Some(lname.clone());
                                 lg = true;
                             } else {
                                 l = Some(format!("{}{}", self.r.pick(&["конф", "long-x", "o", "值", "maxLevel", "log_file", "Xy", "очень-длинное-имя", "connection-timeout-millis-extended-x"]), longs.len()));
@@ -489,6 +504,7 @@ impl Gen<'_> {
                             f.long = l.clone();
                             f.short_gen = sg;
                             f.long_gen = lg;
+                            f.short_str = !sg && s.is_some() && self.r.chance(30);
                             if let Some(s) = s {
                                 shorts.push(s);
                             }
@@ -603,10 +619,18 @@ pub fn generate_opts(id: usize, r: &mut R, help_names: bool) -> Decl {
         });
     }
     if grouped {
-        if roots.iter().all(|r| r.hidden) {
+        let mut raw = g.r.chance(25);
+        // every member with commands hidden is kept when a visible catch-all follows (a set without a single visible command)
+        if g.r.chance(6) {
+            raw = true;
+            for r in roots.iter_mut() {
+                r.hidden = true;
+            }
+        }
+        if roots.iter().all(|r| r.hidden) && !raw {
             roots[0].hidden = false;
         }
-        if g.r.chance(25) {
+        if raw {
             roots.push(RootM {
                 enum_id: "RAW".into(),
                 hidden: false,
@@ -659,7 +683,43 @@ pub fn generate_opts(id: usize, r: &mut R, help_names: bool) -> Decl {
 // ------------------------------------------------------------------------------------------------
 // source emission
 
-fn emit_doc(out: &mut String, indent: &str, d: &Option<DocM>) {
+/// Doc text and the item's own attribute line(s) `own` (already indented, newline-terminated, may be empty) in the
+/// order the style asks for.
+fn emit_doc_around(out: &mut String, indent: &str, d: &Option<DocM>, own: &str) {
+    let style = d.as_ref().map(|d| d.style).unwrap_or(0);
+    match (d, style) {
+        (Some(d), 4) | (Some(d), 6) => {
+            let mid = if style == 4 { format!("{}#[allow(unused)]\n", indent) } else { own.to_string() };
+            for (i, l) in d.lines.iter().enumerate() {
+                if l.is_empty() {
+                    out.push_str(&format!("{}///\n", indent));
+                } else {
+                    out.push_str(&format!("{}/// {}\n", indent, l));
+                }
+                if i == 0 {
+                    out.push_str(&mid);
+                }
+            }
+            if style == 4 {
+                out.push_str(own);
+            }
+        }
+        (Some(_), 5) => {
+            out.push_str(own);
+            let plain = d.clone().map(|mut x| {
+                x.style = 0;
+                x
+            });
+            emit_doc_plain(out, indent, &plain);
+        }
+        _ => {
+            emit_doc_plain(out, indent, d);
+            out.push_str(own);
+        }
+    }
+}
+
+fn emit_doc_plain(out: &mut String, indent: &str, d: &Option<DocM>) {
     if let Some(d) = d {
         match d.style {
             1 | 2 => {
@@ -709,7 +769,6 @@ fn emit_enum(en: &EnumM, enums: &BTreeMap<String, EnumM>, groups: &BTreeMap<Stri
         }
     };
     for v in &en.variants {
-        emit_doc(&mut o, "    ", &v.doc);
         let mut attrs = Vec::new();
         if v.explicit {
             attrs.push(format!("name = \"{}\"", v.name));
@@ -717,9 +776,8 @@ fn emit_enum(en: &EnumM, enums: &BTreeMap<String, EnumM>, groups: &BTreeMap<Stri
         if v.tuple {
             attrs.push("subcommand".to_string());
         }
-        if !attrs.is_empty() {
-            o.push_str(&format!("    #[command({})]\n", attrs.join(", ")));
-        }
+        let own = if attrs.is_empty() { String::new() } else { format!("    #[command({})]\n", attrs.join(", ")) };
+        emit_doc_around(&mut o, "    ", &v.doc, &own);
         if v.tuple {
             o.push_str(&format!("    {}({}),\n", v.ident, subty(v.sub.as_ref().unwrap())));
         } else if v.fields.is_empty() && v.sub.is_none() {
@@ -727,10 +785,15 @@ fn emit_enum(en: &EnumM, enums: &BTreeMap<String, EnumM>, groups: &BTreeMap<Stri
         } else {
             o.push_str(&format!("    {} {{\n", v.ident));
             for f in &v.fields {
-                emit_doc(&mut o, "        ", &f.doc);
                 let mut a = Vec::new();
                 if let Some(s) = f.short {
-                    a.push(if f.short_gen { "short".to_string() } else { format!("short = '{}'", s) });
+                    a.push(if f.short_gen {
+                        "short".to_string()
+                    } else if f.short_str {
+                        format!("short = \"{}\"", s)
+                    } else {
+                        format!("short = '{}'", s)
+                    });
                 }
                 if let Some(l) = &f.long {
                     a.push(if f.long_gen { "long".to_string() } else { format!("long = \"{}\"", l) });
@@ -744,9 +807,8 @@ fn emit_enum(en: &EnumM, enums: &BTreeMap<String, EnumM>, groups: &BTreeMap<Stri
                 if let Some(vn) = &f.value_name {
                     a.push(format!("value_name = \"{}\"", vn));
                 }
-                if !a.is_empty() {
-                    o.push_str(&format!("        #[arg({})]\n", a.join(", ")));
-                }
+                let own = if a.is_empty() { String::new() } else { format!("        #[arg({})]\n", a.join(", ")) };
+                emit_doc_around(&mut o, "        ", &f.doc, &own);
                 let ty = if f.optional { format!("Option<{}>", f.ty) } else { f.ty.clone() };
                 o.push_str(&format!("        {}: {},\n", f.name, ty));
             }
